@@ -29,6 +29,46 @@ def gen(ctx, n_per_cmd, cmds):
     return cases
 
 
+def after_write(ctx, count):
+    """fuzzy results handed to the writers (NetCDF: several fields with different missing cells in one file; CSV) are still fuzzy afterwards:
+    the stored result of a fuzzy command stays within [-1, 1] at its non-missing cells whatever consumes it"""
+    import os, numpy
+    from . import c18
+    from mpilot.libraries.eems.netcdf.io import EEMSWrite as NcWrite
+    rng = ctx.rng
+    tmp = common.tmpdir("mpv_c04_")
+    for i in range(count):
+        shape = rng.choice(c18.SHAPES)
+        k = rng.randrange(2, 5)
+        arrs = []
+        for j in range(k):
+            case = eems.gen_case(rng, rng.choice(["CvtToFuzzy", "FuzzyNot", "FuzzyUnion", "CvtToFuzzyCat"]), style="valid", shape=shape, mask_style=rng.choice(["one", "some", "none"]))
+            out = eems.run_impl(case)
+            if out["status"] == "ok" and isinstance(out["result"], numpy.ma.MaskedArray) and out["result"].shape == tuple(shape):
+                arrs.append(out["result"])
+        if len(arrs) < 2:
+            continue
+        tpl = os.path.join(tmp, "tpl%d.nc" % (i % 4))
+        c18.make_template(tpl, shape, rng)
+        outp = os.path.join(tmp, "out%d.nc" % (i % 4))
+        if os.path.exists(outp):
+            os.remove(outp)
+        try:
+            NcWrite("W", []).execute(OutFileName=outp, OutFieldNames=[eems.Producer(a, "f%d" % j, True) for j, a in enumerate(arrs)],
+                                     DimensionFileName=tpl, DimensionFieldName="elev")
+        except Exception as e:
+            ctx.count("after_write_errors:" + type(e).__name__)
+        ctx.case("after-write %d %r" % (i, [a.tolist() for a in arrs]), sample=None)
+        ctx.count("after_write_cases")
+        for j, a in enumerate(arrs):
+            vis = [v for v, m in zip(numpy.ma.getdata(a).ravel().tolist(), numpy.ma.getmaskarray(a).ravel().tolist()) if not m]
+            bad = [v for v in vis if not (-1.0 <= v <= 1.0)]
+            if bad:
+                ctx.fail("after a NetCDF write of %d fuzzy results, result no. %d holds %r at a non-missing cell" % (len(arrs), j, bad[:3]),
+                         {"results": [repr(x.tolist()) for x in arrs], "shape": shape})
+                break
+
+
 def run(ctx):
     ctx.check_proofs(["MPilot.Props.C04"])
     model = common.Model()
@@ -36,6 +76,7 @@ def run(ctx):
     eems.run_stream(ctx, model, gen(ctx, n, eems.FUZZY_PRODUCERS), "exec:fuzzy-producers", on_result=oracle(ctx))
     chain_consumers = [c for c in eems.FUZZY_PRODUCERS if c in eems.FUZZY_CONSUMERS]
     eems.run_stream(ctx, model, eems.gen_chains(ctx.rng, ctx.budget(60, 2500), chain_consumers), "exec:fuzzy-chains", on_result=oracle(ctx))
+    after_write(ctx, ctx.budget(20, 600))
     if ctx.disagreements and not ctx.failures:
         # failing-input search: enlarged budget focused on the commands whose correspondence broke
         cmds = sorted(set(d["case"]["cmd"] for d in ctx.disagreements))
